@@ -138,16 +138,53 @@ fn err_class(e: &GmmError) -> &'static str {
     }
 }
 
+/// A successfully fitted model together with the reference quantities recomputed from its accessors.
+pub struct Fitted {
+    pub model: GaussianMixtureModel<f64>,
+    pub refs: Vec<RefComp>,
+    pub k: usize,
+    pub p: usize,
+}
+
+/// What `judge_rows` saw: labels / probabilities as returned by linfa and the reference
+/// weighted log-densities (with their uncertainty) of every row.
+pub struct RowOut {
+    pub far40: bool,
+    pub labels: Option<Vec<usize>>,
+    pub proba: Option<Mat>,
+    pub wl: Vec<Vec<f64>>,
+    pub dwl: Vec<Vec<f64>>,
+}
+
 pub fn check(c: &Case, obs: &mut Obs) {
     let b = build(c);
+    let Some(f) = fit_model(c, &b, obs) else {
+        return;
+    };
+    let queries = build_queries(c, &b);
+    if queries.is_empty() {
+        obs.class("no_queries");
+        return;
+    }
+    let Some(out) = judge_rows(obs, &f, &queries) else {
+        return;
+    };
+    obs.class_if(out.far40, "has_query_ge_40sd");
+    // NT rule: successful fit with >= 2 components and >= 1 query at least 40 standard deviations from every fitted component
+    obs.nontrivial_if(f.k >= 2 && out.far40);
+}
+
+/// Fits the mixture described by the case and judges the model itself (obligation 1 of the
+/// property). `None`: fit failed / was not judged / the model is too broken to predict with.
+pub fn fit_model(c: &Case, b: &Built, obs: &mut Obs) -> Option<Fitted> {
     let p = b.dims;
     let k = c.k();
     let n = b.rows.len();
     if n < k.max(2) || p == 0 {
         obs.skip("case_too_small");
-        return;
+        return None;
     }
-    classify_case(c, &b, obs);
+    classify_case(c, b, obs);
     let reg = c.reg();
 
     let flat: Vec<f64> = b.rows.iter().flat_map(|r| r.iter().copied()).collect();
@@ -155,7 +192,7 @@ pub fn check(c: &Case, obs: &mut Obs) {
         Ok(a) => a,
         Err(_) => {
             obs.skip("case_malformed");
-            return;
+            return None;
         }
     };
     let dataset = DatasetBase::from(records.clone());
@@ -171,7 +208,7 @@ pub fn check(c: &Case, obs: &mut Obs) {
         .n_runs(n_runs)
         .max_n_iterations(max_iter);
     let Some(res) = obs.call("fit", || params.fit(&dataset)) else {
-        return;
+        return None;
     };
     let forced_unconverged = max_iter == 1;
     obs.class_if(forced_unconverged, "max_iter_1_cannot_converge");
@@ -186,7 +223,7 @@ pub fn check(c: &Case, obs: &mut Obs) {
                 obs.class(err_class(&e));
                 obs.skip("fit_failed_not_judged");
             }
-            return;
+            return None;
         }
     };
     obs.class("fit_ok");
@@ -217,7 +254,7 @@ pub fn check(c: &Case, obs: &mut Obs) {
             model.precisions().shape()
         )
     }) {
-        return;
+        return None;
     }
     let all_finite = w.iter().all(|v| v.is_finite())
         && means.iter().flatten().all(|v| v.is_finite())
@@ -226,7 +263,7 @@ pub fn check(c: &Case, obs: &mut Obs) {
     if !obs.ensure(all_finite, "model:non-finite-parameter", || {
         format!("fit returned Ok but a parameter is not finite: weights {:?}, means {:?}", w, means)
     }) {
-        return;
+        return None;
     }
 
     obs.ensure(w.iter().all(|v| *v > 0.0), "weights:not-positive", || format!("weights {:?}", w));
@@ -320,19 +357,20 @@ pub fn check(c: &Case, obs: &mut Obs) {
         refs.push(rc);
     }
     if !model_ok || refs.len() != k {
-        return;
+        return None;
     }
 
-    // ---------------- (2) predictions
-    let queries = build_queries(c, &b);
-    if queries.is_empty() {
-        obs.class("no_queries");
-        return;
-    }
+    Some(Fitted { model, refs, k, p })
+}
+
+/// Obligation 2: `predict_proba` / `predict` on the given rows (one call each for the whole batch),
+/// every row judged against the reference posterior.
+pub fn judge_rows(obs: &mut Obs, f: &Fitted, queries: &[(Vec<f64>, Option<usize>)]) -> Option<RowOut> {
+    let (model, refs, k, p) = (&f.model, &f.refs, f.k, f.p);
     let nq = queries.len();
     let qflat: Vec<f64> = queries.iter().flat_map(|(x, _)| x.iter().copied()).collect();
     let Ok(qx) = Array2::from_shape_vec((nq, p), qflat) else {
-        return;
+        return None;
     };
     let proba = obs.call("predict_proba", || model.predict_proba(&qx));
     let pred = obs.call("predict", || model.predict(&qx));
@@ -341,20 +379,24 @@ pub fn check(c: &Case, obs: &mut Obs) {
         if !obs.ensure(pr.len() == nq && pr.iter().all(|r| r.len() == k), "proba:shape", || {
             format!("predict_proba returned shape {:?} for {nq} rows and {k} components", proba.as_ref().map(|a| a.dim()))
         }) {
-            return;
+            return None;
         }
     }
     if let Some(pd) = &pred {
         if !obs.ensure(pd.len() == nq, "predict:shape", || format!("predict returned {} labels for {nq} rows", pd.len())) {
-            return;
+            return None;
         }
     }
     let mut far40 = false;
+    let mut all_wl: Vec<Vec<f64>> = Vec::with_capacity(nq);
+    let mut all_dwl: Vec<Vec<f64>> = Vec::with_capacity(nq);
     for (qi, (x, nominal)) in queries.iter().enumerate() {
         let m2: Vec<f64> = refs.iter().map(|r| r.maha2(x)).collect();
         let wl: Vec<f64> = refs.iter().zip(&m2).map(|(r, m)| r.wlp(*m)).collect();
         if !wl.iter().all(|v| v.is_finite()) {
             obs.class("query_reference_not_finite");
+            all_wl.push(vec![]);
+            all_dwl.push(vec![]);
             continue;
         }
         let dmin = m2.iter().copied().fold(f64::INFINITY, f64::min).sqrt();
@@ -386,6 +428,8 @@ pub fn check(c: &Case, obs: &mut Obs) {
             .map(|(r, m)| LOGP_TOL * r.cond() * (m + p as f64))
             .collect();
         let best = (0..k).fold(0usize, |bst, i| if wl[i] > wl[bst] { i } else { bst });
+        all_wl.push(wl.clone());
+        all_dwl.push(dwl.clone());
 
         let mut row_valid = false;
         if let Some(pr) = &proba_rows {
@@ -491,7 +535,11 @@ pub fn check(c: &Case, obs: &mut Obs) {
             }
         }
     }
-    obs.class_if(far40, "has_query_ge_40sd");
-    // NT rule: successful fit with >= 2 components and >= 1 query at least 40 standard deviations from every fitted component
-    obs.nontrivial_if(k >= 2 && far40);
+    Some(RowOut {
+        far40,
+        labels: pred.map(|a| a.to_vec()),
+        proba: proba_rows,
+        wl: all_wl,
+        dwl: all_dwl,
+    })
 }
